@@ -172,9 +172,32 @@ func one(cfg Config) *Result {
 						private = append(private, b.Id())
 						ack(g, n, op.Id())
 					case choice == 8:
-						q, _ := query.Parse("status:open")
-						if _, err := c.Bugs().Query(q); err != nil {
-							fail(g, "Query", err)
+						// every way of asking the cache something: filters, full-text search (through the index), listings, lookups
+						switch r.n(7) {
+						case 0:
+							q, _ := query.Parse("status:open")
+							if _, err := c.Bugs().Query(q); err != nil {
+								fail(g, "Query", err)
+							}
+						case 1, 2:
+							q, _ := query.Parse([]string{"message", "shared status:open", "private sort:edit", "comment label:l1"}[r.n(4)])
+							if _, err := c.Bugs().Query(q); err != nil {
+								fail(g, "Query (full text)", err)
+							}
+						case 3:
+							for _, x := range c.Bugs().AllIds() {
+								_, _ = c.Bugs().ResolveExcerpt(x)
+							}
+						case 4:
+							_ = c.Bugs().ValidLabels()
+						case 5:
+							if id != "" {
+								_, _ = c.Bugs().ResolvePrefix(id.String()[:8])
+								_, _ = c.Bugs().ResolveExcerptPrefix(id.String()[:8])
+							}
+						case 6:
+							_, _ = c.Bugs().ResolveBugCreateMetadata("no-such-key", "v")
+							_ = c.Identities().AllIds()
 						}
 					default:
 						b, err := c.Bugs().Resolve(id)
